@@ -1,6 +1,7 @@
 """LK rules: like() translation (C17) — taint, mapping, anchoring, partition schema, cache."""
 import ast
 
+from .. import cfg as cfgmod
 from .. import regexlang as R
 from ..core import Undecided, node_text
 from ..idioms import increment_of, is_name
@@ -369,6 +370,64 @@ def _block_of(stmt):
     return [stmt]
 
 
+def _derives_from_pattern(v, fd, pat, depth=0):
+    """v is `cache.get(pat)`, `cache[pat]`, a compile/RegExp call over like_to_regex(pat), or a local defined only by such values"""
+    if isinstance(v, ast.Call):
+        if isinstance(v.func, ast.Attribute) and v.func.attr == 'get' and v.args and is_name(v.args[0], pat):
+            return True
+        inner = [c for c in ast.walk(v) if isinstance(c, ast.Call) and call_name(c) == 'like_to_regex']
+        return bool(inner) and all(c.args and is_name(c.args[0], pat) for c in inner)
+    if isinstance(v, ast.Subscript) and is_name(v.slice, pat):
+        return True
+    if isinstance(v, ast.Name) and depth < 3:
+        defs = [a for a in walk_no_nested(fd) if isinstance(a, ast.Assign) and any(is_name(t, v.id) for t in a.targets)]
+        return bool(defs) and all(_derives_from_pattern(a.value, fd, pat, depth + 1) for a in defs)
+    return False
+
+
+def _matcher_of_this_pattern(rep, fd, pat):
+    """the compiled pattern that is applied to the text was obtained for *this* call's pattern"""
+    apps = [c for c in walk_no_nested(fd) if isinstance(c, ast.Call) and isinstance(c.func, ast.Attribute) and c.func.attr in ('match', 'test', 'search', 'fullmatch', 'exec')]
+    if len(apps) != 1:
+        rep.undecided('matcher applied', fd, 'expected one application of the compiled pattern, found {}'.format(len(apps)))
+        return
+    recv = apps[0].func.value
+    if isinstance(recv, ast.Name):
+        ok = _derives_from_pattern(recv, fd, pat)
+        rep.decide(ok, 'matcher applied', apps[0], 'the applied matcher is a local obtained from this call\'s pattern on every path', 'the matcher applied to the text (`{}`) is not always the one obtained for this call\'s pattern'.format(recv.id))
+        return
+    loc = dotted(recv)
+    if loc is None:
+        rep.undecided('matcher applied', apps[0], 'receiver `{}` not recognised'.format(node_text(recv, 60)))
+        return
+    # a matcher remembered between calls: it must change whenever the remembered pattern changes
+    g = cfgmod.CFG(fd)
+    v_nodes = [n for n in g.nodes if n.kind == 'stmt' and isinstance(n.ast, ast.Assign) and dotted(n.ast.targets[0]) == loc]
+    keys = set()
+    for t_ in [n.ast for n in g.nodes if n.kind == 'test']:
+        for c in ast.walk(t_):
+            if isinstance(c, ast.Compare) and len(c.ops) == 1:
+                sides = [c.left, c.comparators[0]]
+                if any(is_name(x, pat) for x in sides):
+                    keys |= {dotted(x) for x in sides if dotted(x) and '.' in dotted(x)}
+    k_nodes = [n for n in g.nodes if n.kind == 'stmt' and isinstance(n.ast, ast.Assign) and dotted(n.ast.targets[0]) in keys]
+    if not k_nodes or not v_nodes:
+        rep.undecided('matcher applied', apps[0], 'the applied matcher `{}` persists between calls and its pairing with a remembered pattern was not recognised'.format(loc))
+        return
+    is_v = lambda n: any(n is x for x in v_nodes)  # noqa: E731
+    for k in k_nodes:
+        to_k = k is g.entry or g.exists_path(g.entry, lambda n, k=k: n is k, avoid=is_v)
+        from_k = g.exists_path(k, lambda n: n is g.exit or (isinstance(n.ast, ast.Return)), avoid=is_v)
+        if to_k and from_k:
+            rep.violated('matcher applied', k.ast, 'a path through the matcher function updates the remembered pattern `{}` without updating the remembered matcher `{}`: the next text is tested against the matcher of an earlier pattern'.format(dotted(k.ast.targets[0]), loc))
+            return
+    ok = all(_derives_from_pattern(n.ast.value, fd, pat) for n in v_nodes)
+    if ok:
+        rep.holds('matcher applied', apps[0], 'the remembered matcher is replaced on every path that replaces the remembered pattern, by a matcher obtained for this pattern')
+    else:
+        rep.undecided('matcher applied', apps[0], 'remembered matcher `{}` is assigned a value not recognised as derived from the pattern'.format(loc))
+
+
 def rule_lk_cache(cx, rep, port):
     """compiled patterns are cached in the per-query context, keyed by the pattern alone"""
     p = cx.port(port)
@@ -400,6 +459,7 @@ def rule_lk_cache(cx, rep, port):
         rep.violated('cache key', matcher, 'the LIKE cache is not keyed by the pattern alone: a matcher compiled for one pattern can be used for another')
     else:
         rep.holds('cache', matcher, 'cache in query_context.like_regex_cache keyed by the pattern')
+    _matcher_of_this_pattern(rep, matcher, pat_param)
     # the cache itself is created per RBQLContext
     ctx = p.cls(mod, 'RBQLContext')
     init = [m for m in ctx.body if isinstance(m, ast.FunctionDef) and m.name == '__init__'][0]
